@@ -49,6 +49,7 @@ type sim struct {
 	r      *rand.Rand
 	honestConfirms bool
 	dead   bool
+	obs    int // monitor evaluations in this run
 }
 
 func main() {
@@ -97,7 +98,7 @@ func main() {
 		}(i, rc)
 	}
 	wg.Wait()
-	c.Finish("n in {1,3,4} node processes with the unmodified DPoS object (signature, producer set, slot owner, LIB) run on logical slots: the slot owner produces with the real producer path on its own best block; a seeded scheduler delivers, delays, reorders, drops (with later parents-first repair) and partitions; correct nodes skip slots; with n=4 one producer is Byzantine (equivocates in its slot on the same or different parents towards different node subsets, extends stale forks, optionally lies in the Confirms header field). After every delivery on every correct node: reported LIB never decreases, lies on the node's main chain, no main-chain block at or below any LIB ever reported changes afterwards, LIB is confirmed by blocks of > 2/3 distinct producers (honest-Confirms runs), LIBs of any two correct nodes lie on one branch of the global block tree; a restarted node reports the same LIB and best block; a block numbered at or below the LIB the node has reported, which the node does not have, is refused. Colluding-producer runs (agreement not claimed): all producers are scripted, one correct node is observed; a second branch is started at a root on the first chain, a prefix of it is stored while the root is still at or above the LIB, the first chain grows until the LIB has passed the root, then the rest of the second branch (longer) is delivered parents- or children-first: the main chain must not change when the root is below the LIB. A case = one delivery; non-trivial = delivery in a run in which LIB advanced beyond genesis; distinct = hash(run, step)",
+	c.Finish("n in {1,3,4} node processes with the unmodified DPoS object (signature, producer set, slot owner, LIB) run on logical slots: the slot owner produces with the real producer path on its own best block; a seeded scheduler delivers, delays, reorders, drops (with later parents-first repair) and partitions; correct nodes skip slots; with n=4 one producer is Byzantine (equivocates in its slot on the same or different parents towards different node subsets, extends stale forks, optionally lies in the Confirms header field). After every delivery on every correct node: reported LIB never decreases, lies on the node's main chain, no main-chain block at or below any LIB ever reported changes afterwards, LIB is confirmed by blocks of > 2/3 distinct producers (also when the Byzantine producer inflates Confirms), LIBs of any two correct nodes lie on one branch of the global block tree; a restarted node reports the same LIB and best block; a block numbered at or below the LIB the node has reported, which the node does not have, is refused. Colluding-producer runs (agreement not claimed): all producers are scripted, one correct node is observed; a second branch is started at a root on the first chain, a prefix of it is stored while the root is still at or above the LIB, the first chain grows until the LIB has passed the root, then the rest of the second branch (longer) is delivered parents- or children-first: the main chain must not change when the root is below the LIB. A case = one evaluation of the monitors on a correct node (after a delivery, an own block, a restart); non-trivial = evaluation in a run in which LIB advanced beyond genesis; distinct = hash(run, evaluation index)",
 		c.Pick(100, 2000),
 		"bounded: n<=4, f<=1, <=40 slots per run; agreement is explored, not proved",
 		"the Confirms header field is chosen by the producer: runs in which the Byzantine producer inflates it are a separate class (violation key suffix /inflated-confirms); all monitors apply to it")
@@ -135,6 +136,7 @@ func (s *sim) observe(i int, what string) bool {
 		return false
 	}
 	s.c.Eval(1)
+	s.obs++
 	cur := libRec{info.LibNo, info.LibHash}
 	prev := s.lib[i]
 	if cur.no < prev.no {
@@ -528,7 +530,7 @@ func run(c *vf.Ctx, ri, n, nbyz int, lie bool) {
 	c.Count(fmt.Sprintf("runs_n%d_byz%d", n, nbyz), 1)
 	if maxl > 0 {
 		c.Count("runs_with_lib_advance", 1)
-		for k := range s.trace {
+		for k := 0; k < s.obs; k++ {
 			c.Nontrivial(fmt.Sprintf("%s|%d", name, k))
 		}
 	}
